@@ -222,7 +222,7 @@ pub fn skip(reason: &str) -> Exec {
 pub fn crosscheck_docs(docs: &[&Doc]) -> Result<(), String> {
     for d in docs {
         let bytes = d.ser();
-        let seen = crate::verdict::structure_from_events(&bytes)
+        let seen = crate::verdict::structure_from_events_opt(&bytes, d.unclosed)
             .map_err(|e| format!("generated document is not accepted by the reader: {e}: {}", String::from_utf8_lossy(&bytes)))?;
         if seen != crate::verdict::structure_of(&d.root) {
             return Err(format!("generated DOM and reader events disagree on {}", String::from_utf8_lossy(&bytes)));
@@ -237,6 +237,34 @@ pub fn crosscheck_docs(docs: &[&Doc]) -> Result<(), String> {
 pub fn add_warmup(rng: &mut Rng, r: &mut crate::session::Replica, docs: &[Doc]) {
     use crate::session::{Input, Step};
     use crate::simreader::Plan;
+    if rng.pct(5) && !r.role.contains("+weathered") {
+        // a weathered thread: hundreds or thousands of *failed* deliveries of an ordinary, nested document before the
+        // history starts (whatever a failed call leaves behind - a counter not restored, a pool entry not returned,
+        // a guard not released - accumulates)
+        let depth = rng.range(6, 40);
+        let mut b = Vec::new();
+        for i in 0..depth {
+            b.extend_from_slice(format!("<n{} k=\"v\">", i % 5).as_bytes());
+        }
+        let mut plan = Plan::slice();
+        match rng.below(4) {
+            0 => b.extend_from_slice(b"text</nope>"),
+            1 => b.extend_from_slice(b"<bad a=1 >"),
+            2 => b.extend_from_slice(b"<x>\xff\xfe</x>"),
+            _ => {
+                b.extend_from_slice(b"<title>some text");
+                plan = Plan::whole();
+                plan.fault = crate::simreader::Fault::Io { at: b.len() - 4, kind: "ConnectionReset".into() };
+            }
+        }
+        r.warmup.push(Step { input: Input::Raw(b), plan, cfg: 0 });
+        if rng.pct(50) {
+            // ... interleaved with a good one
+            r.warmup.push(Step { input: Input::Raw(b"<n0><n1>fine</n1></n0>".to_vec()), plan: Plan::slice(), cfg: 0 });
+        }
+        r.role = format!("{}+weathered{}", r.role, rng.pick(&[300usize, 1100, 1600, 5000]));
+        return;
+    }
     let n = rng.range(1, 3);
     for _ in 0..n {
         match rng.below(3) {
@@ -330,6 +358,15 @@ pub fn count_decorations(s: &crate::session::Session, ctr: &mut Ctr) {
         if r.role.contains("parking") {
             bump(ctr, "fault.replica_parked_mid_document_while_next_runs");
         }
+        if r.role.contains("+weathered") {
+            bump(ctr, "fault.replica_on_thread_weathered_by_failed_deliveries");
+        }
+        if r.steps.iter().any(|st| st.cfg & crate::session::CFG_CARRY_ON != 0) {
+            bump(ctr, "fault.caller_carries_on_with_same_reader_after_error");
+        }
+    }
+    if s.docs.iter().any(|d| d.unclosed) {
+        bump(ctr, "fault.stream_ends_early_at_token_boundary");
     }
 }
 
